@@ -1191,11 +1191,90 @@ func chainNode(t types.Type) (st *types.Struct, opIdx, tailIdx int, ok bool) {
 	return s, opIdx, tailIdx, opIdx >= 0 && tailIdx >= 0
 }
 
+// leftFoldIn: does fn have a loop-carried value acc whose next value is the result of a call that receives acc itself as an
+// operand (acc = combine(acc, x), directly or packed into a variadic list)?
+func leftFoldIn(fn *ssa.Function) bool {
+	strip := func(v ssa.Value) ssa.Value {
+		for {
+			switch x := v.(type) {
+			case *ssa.MakeInterface:
+				v = x.X
+			case *ssa.ChangeInterface:
+				v = x.X
+			case *ssa.ChangeType:
+				v = x.X
+			default:
+				return v
+			}
+		}
+	}
+	for _, b := range fn.Blocks {
+		for _, ins := range b.Instrs {
+			phi, ok := ins.(*ssa.Phi)
+			if !ok {
+				break
+			}
+			for i, pred := range b.Preds {
+				if !b.Dominates(pred) {
+					continue // not a back edge
+				}
+				// values merged into the back-edge input
+				seen := map[ssa.Value]bool{}
+				var fold func(v ssa.Value) bool
+				fold = func(v ssa.Value) bool {
+					v = strip(v)
+					if seen[v] {
+						return false
+					}
+					seen[v] = true
+					switch x := v.(type) {
+					case *ssa.Phi:
+						if x == phi {
+							return false
+						}
+						for _, e := range x.Edges {
+							if fold(e) {
+								return true
+							}
+						}
+					case *ssa.Call:
+						for _, a := range x.Call.Args {
+							a = strip(a)
+							if a == ssa.Value(phi) {
+								return true
+							}
+							// variadic packing: slice of a fresh array one of whose elements is acc
+							if sl, ok := a.(*ssa.Slice); ok {
+								if al, ok := sl.X.(*ssa.Alloc); ok && al.Referrers() != nil {
+									for _, r := range *al.Referrers() {
+										if ia, ok := r.(*ssa.IndexAddr); ok && ia.Referrers() != nil {
+											for _, rr := range *ia.Referrers() {
+												if st, ok := rr.(*ssa.Store); ok && strip(st.Val) == ssa.Value(phi) {
+													return true
+												}
+											}
+										}
+									}
+								}
+							}
+						}
+					}
+					return false
+				}
+				if fold(phi.Edges[i]) {
+					return true
+				}
+			}
+		}
+	}
+	return false
+}
+
 var ruleD10 = &Rule{
 	ID:    "D10",
 	Floor: 3,
 	Doc: "operator chains are translated by structural recursion: the query grammars parse `a or b and c` into a right-nested chain node {Head, Op|AndOr, Tail *Node}; the operator of a node joins its head with its *whole* tail. Every translator function (live code under reader/, grammar packages excluded) that reads the operator field of such a node must hand that node's Tail to a translation call (itself or a sibling taking the node type) — " +
-		"the tail is translated as a unit. A function that reads node.Op but never passes node.Tail to a call has flattened the chain (typically a loop `cur = cur.Tail` accumulating left to right): `a or b and c` becomes `(a or b) and c`, mixed and/or filters select different lines",
+		"the tail is translated as a unit — or walk the chain iteratively without folding the translated heads left to right (a cursor into the structure being built is the tail recursion written as a loop). A function that reads node.Op, never passes node.Tail to a call and carries `acc = combine(acc, head)` around its loop has flattened the chain: `a or b and c` becomes `(a or b) and c`, mixed and/or filters select different lines",
 	Run: func(c *Ctx) []Obl {
 		var obls []Obl
 		for _, fn := range liveModuleFuncs(c, "reader") {
@@ -1297,6 +1376,11 @@ var ruleD10 = &Rule{
 				key := ssaName(fn) + " translates the operator of " + u.tname
 				if u.tailArg {
 					obls = append(obls, Obl{Key: key, Pos: c.pos(u.opRead), Status: OK, Msg: "the node's tail is handed to a translation call as a unit"})
+				} else if !leftFoldIn(fn) {
+					// an iterative walk that keeps a cursor into the structure it builds (the next head is inserted below the
+					// node made for the previous operator) is the tail recursion written as a loop; what regroups the chain is
+					// folding the translated heads left to right
+					obls = append(obls, Obl{Key: key, Pos: c.pos(u.opRead), Status: OK, Msg: "the chain is walked iteratively without folding the translated heads left to right"})
 				} else {
 					obls = append(obls, Obl{Key: key, Pos: c.pos(u.opRead), Status: Violation,
 						Msg: "the function reads the operator of a right-nested chain node but never passes that node's Tail to a translation call: the chain is flattened and the operator no longer joins the head with the whole tail (`a or b and c` is grouped as `(a or b) and c`)"})
